@@ -52,6 +52,8 @@ KANI_ALSO = {
     "c06_is_reply_for_frontend": ["C03"], "c06_is_reply_for_backend": ["C18"],
     "c01_hdr_new_frontend": ["C04"], "c01_hdr_accessors": ["C04", "C06"],
     "c04_update_reply_ack_flag": ["C03"],
+    # header validity (version 1, no reserved bits, known code, size <= 0x1000) is the acceptance side of the wire format
+    "c20_hdr_valid_frontend": ["C01", "C05"], "c20_hdr_valid_backend": ["C01"],
 }
 
 STANDING_ASSUMPTIONS = [
